@@ -43,14 +43,15 @@ type deferred struct {
 type frame struct {
 	fn        *ssa.Function
 	caller    *frame
-	env       map[ssa.Value]Value
+	env       []Value
+	idx       map[ssa.Value]int
 	block     *ssa.BasicBlock
 	prev      *ssa.BasicBlock
 	defers    []deferred
 	result    Value
 	panicking *goPanic
 	recovered bool
-	visits    map[*ssa.BasicBlock]int
+	visits    []int32
 	depth     int
 	skipPhis  bool
 	specReturned bool
@@ -513,8 +514,8 @@ func (e *Exec) get(fr *frame, v ssa.Value) Value {
 	case *ssa.Builtin:
 		return &Closure{bi: v}
 	}
-	if r, ok := fr.env[v]; ok {
-		return r
+	if i, ok := fr.idx[v]; ok {
+		return fr.env[i]
 	}
 	panic(fmt.Sprintf("get: no value for %T %s in %s", v, v.Name(), fr.fn))
 }
@@ -637,12 +638,29 @@ func (e *Exec) callFunction(caller *frame, fn *ssa.Function, args []Value, env [
 	if fn.Pkg != nil && fn.Pkg.Pkg.Path() == "time" && fn.Signature.Recv() == nil && e.prog.intrinsics[fn.String()] == nil {
 		switch fn.Name() {
 		case "Now":
-			e.warnings["time.Now() is the zero instant (frozen clock)"]++
-			return e.zero(fn.Signature.Results().At(0).Type())
+			e.warnings["time.Now() is a frozen instant (2023-11-14T22:13:20Z)"]++
+			z := e.zero(fn.Signature.Results().At(0).Type())
+			if st, ok := z.(Struct); ok && len(st) == 3 {
+				// time.Time{wall: 0, ext: seconds since year 1, loc: nil (UTC)}
+				st[1] = e.ts.BV(64, 62135596800+1700000000)
+			}
+			return z
 		case "Since", "Until":
 			e.warnings["time.Since/Until return 0 (frozen clock)"]++
 			return e.ts.BV(64, 0)
 		}
+	}
+	if fn.Blocks == nil && fn.String() == "sync.NewCond" {
+		pt := fn.Signature.Results().At(0).Type().(*types.Pointer)
+		l := e.newLoc(pt.Elem())
+		if st, ok := pt.Elem().Underlying().(*types.Struct); ok {
+			for i := 0; i < st.NumFields(); i++ {
+				if st.Field(i).Name() == "L" {
+					e.storeLoc(l.kids[i], args[0])
+				}
+			}
+		}
+		return Pointer{loc: l}
 	}
 	if fn.Blocks == nil {
 		return e.callExternal(caller, fn, args)
@@ -666,7 +684,8 @@ func (e *Exec) callFunction(caller *frame, fn *ssa.Function, args []Value, env [
 		}
 	}
 	e.funcsUsed[fn] = true
-	fr := &frame{fn: fn, caller: caller, env: make(map[ssa.Value]Value, 16)}
+	info := e.prog.funcInfo(fn)
+	fr := &frame{fn: fn, caller: caller, env: make([]Value, info.n), idx: info.idx}
 	if caller != nil {
 		fr.depth = caller.depth + 1
 	}
@@ -677,10 +696,10 @@ func (e *Exec) callFunction(caller *frame, fn *ssa.Function, args []Value, env [
 		panic(fmt.Sprintf("call %s: %d args for %d params", fn, len(args), len(fn.Params)))
 	}
 	for i, p := range fn.Params {
-		fr.env[p] = args[i]
+		fr.env[fr.idx[p]] = args[i]
 	}
 	for i, fv := range fn.FreeVars {
-		fr.env[fv] = env[i]
+		fr.env[fr.idx[fv]] = env[i]
 	}
 	saved := e.curFrame
 	e.curFrame = fr
@@ -743,10 +762,10 @@ func (e *Exec) runBlocks(fr *frame) (normal bool) {
 	}()
 	for {
 		if fr.visits == nil {
-			fr.visits = map[*ssa.BasicBlock]int{}
+			fr.visits = make([]int32, len(fr.fn.Blocks))
 		}
-		fr.visits[fr.block]++
-		if e.inInit == 0 && fr.visits[fr.block] > e.unwind {
+		fr.visits[fr.block.Index]++
+		if e.inInit == 0 && int(fr.visits[fr.block.Index]) > e.unwind {
 			panic(&pathEnd{kind: endUnwind, msg: fmt.Sprintf("unwind bound %d exceeded in %s block %d", e.unwind, fr.fn, fr.block.Index)})
 		}
 		skip := fr.skipPhis
@@ -855,19 +874,19 @@ func (e *Exec) visitInstr(fr *frame, ins ssa.Instruction) cont {
 	switch ins := ins.(type) {
 	case *ssa.DebugRef:
 	case *ssa.UnOp:
-		fr.env[ins] = e.unop(fr, ins)
+		fr.env[fr.idx[ins]] = e.unop(fr, ins)
 	case *ssa.BinOp:
-		fr.env[ins] = e.binop(ins.Op, ins.X.Type(), e.get(fr, ins.X), e.get(fr, ins.Y), ins.Y.Type())
+		fr.env[fr.idx[ins]] = e.binop(ins.Op, ins.X.Type(), e.get(fr, ins.X), e.get(fr, ins.Y), ins.Y.Type())
 	case *ssa.Call:
 		fv, args := e.prepareCall(fr, &ins.Call)
-		fr.env[ins] = e.callValue(fr, fv, args, &ins.Call)
+		fr.env[fr.idx[ins]] = e.callValue(fr, fv, args, &ins.Call)
 		e.curFrame = fr
 	case *ssa.ChangeInterface:
-		fr.env[ins] = e.get(fr, ins.X)
+		fr.env[fr.idx[ins]] = e.get(fr, ins.X)
 	case *ssa.ChangeType:
-		fr.env[ins] = e.get(fr, ins.X)
+		fr.env[fr.idx[ins]] = e.get(fr, ins.X)
 	case *ssa.Convert:
-		fr.env[ins] = e.convert(ins.X.Type(), ins.Type(), e.get(fr, ins.X))
+		fr.env[fr.idx[ins]] = e.convert(ins.X.Type(), ins.Type(), e.get(fr, ins.X))
 	case *ssa.MultiConvert:
 		e.unsupported("MultiConvert")
 	case *ssa.SliceToArrayPointer:
@@ -878,16 +897,16 @@ func (e *Exec) visitInstr(fr *frame, ins ssa.Instruction) cont {
 			e.goPanicStr("runtime error: cannot convert slice to array pointer: length too short")
 		}
 		if s.arr == nil {
-			fr.env[ins] = Pointer{}
+			fr.env[fr.idx[ins]] = Pointer{}
 		} else {
-			fr.env[ins] = Pointer{loc: e.subArray(s.arr, s.off, n, at)}
+			fr.env[fr.idx[ins]] = Pointer{loc: e.subArray(s.arr, s.off, n, at)}
 		}
 	case *ssa.MakeInterface:
-		fr.env[ins] = Iface{t: ins.X.Type(), v: copyVal(e.get(fr, ins.X))}
+		fr.env[fr.idx[ins]] = Iface{t: ins.X.Type(), v: copyVal(e.get(fr, ins.X))}
 	case *ssa.Extract:
-		fr.env[ins] = e.get(fr, ins.Tuple).(Tuple)[ins.Index]
+		fr.env[fr.idx[ins]] = e.get(fr, ins.Tuple).(Tuple)[ins.Index]
 	case *ssa.Slice:
-		fr.env[ins] = e.sliceOp(fr, ins)
+		fr.env[fr.idx[ins]] = e.sliceOp(fr, ins)
 	case *ssa.Return:
 		switch len(ins.Results) {
 		case 0:
@@ -940,17 +959,17 @@ func (e *Exec) visitInstr(fr *frame, ins ssa.Instruction) cont {
 	case *ssa.MakeChan:
 		n := e.concretize(e.toInt(e.get(fr, ins.Size)), "chan size")
 		e.objID++
-		fr.env[ins] = &ChanObj{cap: int(n), et: ins.Type().Underlying().(*types.Chan).Elem(), id: e.objID}
+		fr.env[fr.idx[ins]] = &ChanObj{cap: int(n), et: ins.Type().Underlying().(*types.Chan).Elem(), id: e.objID}
 	case *ssa.Alloc:
 		t := ins.Type().Underlying().(*types.Pointer).Elem()
 		if ins.Heap {
-			fr.env[ins] = Pointer{loc: e.newLoc(t)}
+			fr.env[fr.idx[ins]] = Pointer{loc: e.newLoc(t)}
 		} else {
 			// stack allocs are re-zeroed on each execution
-			if old, ok := fr.env[ins]; ok {
+			if old := fr.env[fr.idx[ins]]; old != nil {
 				e.storeLoc(old.(Pointer).loc, e.zero(t))
 			} else {
-				fr.env[ins] = Pointer{loc: e.newLoc(t)}
+				fr.env[fr.idx[ins]] = Pointer{loc: e.newLoc(t)}
 			}
 		}
 	case *ssa.MakeSlice:
@@ -964,37 +983,37 @@ func (e *Exec) visitInstr(fr *frame, ins ssa.Instruction) cont {
 		}
 		et := ins.Type().Underlying().(*types.Slice).Elem()
 		e.noteAlloc(c)
-		fr.env[ins] = Slice{arr: e.newArrayLoc(et, c), off: 0, len: l, cap: c}
+		fr.env[fr.idx[ins]] = Slice{arr: e.newArrayLoc(et, c), off: 0, len: l, cap: c}
 	case *ssa.MakeMap:
 		mt := ins.Type().Underlying().(*types.Map)
 		e.objID++
-		fr.env[ins] = &MapObj{kt: mt.Key(), vt: mt.Elem(), id: e.objID}
+		fr.env[fr.idx[ins]] = &MapObj{kt: mt.Key(), vt: mt.Elem(), id: e.objID}
 	case *ssa.Range:
-		fr.env[ins] = e.rangeOp(e.get(fr, ins.X))
+		fr.env[fr.idx[ins]] = e.rangeOp(e.get(fr, ins.X))
 	case *ssa.Next:
-		fr.env[ins] = e.nextOp(fr, ins)
+		fr.env[fr.idx[ins]] = e.nextOp(fr, ins)
 	case *ssa.FieldAddr:
 		p := e.get(fr, ins.X).(Pointer)
 		switch {
 		case p.loc != nil:
-			fr.env[ins] = Pointer{loc: p.loc.kids[ins.Field]}
+			fr.env[fr.idx[ins]] = Pointer{loc: p.loc.kids[ins.Field]}
 		case p.sym != nil:
 			el := make([]*Loc, len(p.sym.elems))
 			for i, l := range p.sym.elems {
 				el[i] = l.kids[ins.Field]
 			}
-			fr.env[ins] = Pointer{sym: &symPtr{elems: el, idx: p.sym.idx}}
+			fr.env[fr.idx[ins]] = Pointer{sym: &symPtr{elems: el, idx: p.sym.idx}}
 		default:
 			e.goPanicStr("runtime error: invalid memory address or nil pointer dereference")
 		}
 	case *ssa.Field:
-		fr.env[ins] = e.get(fr, ins.X).(Struct)[ins.Field]
+		fr.env[fr.idx[ins]] = e.get(fr, ins.X).(Struct)[ins.Field]
 	case *ssa.IndexAddr:
-		fr.env[ins] = e.indexAddr(fr, ins)
+		fr.env[fr.idx[ins]] = e.indexAddr(fr, ins)
 	case *ssa.Index:
-		fr.env[ins] = e.indexOp(fr, ins)
+		fr.env[fr.idx[ins]] = e.indexOp(fr, ins)
 	case *ssa.Lookup:
-		fr.env[ins] = e.lookupOp(fr, ins)
+		fr.env[fr.idx[ins]] = e.lookupOp(fr, ins)
 	case *ssa.MapUpdate:
 		m, _ := e.get(fr, ins.Map).(*MapObj)
 		if m == nil {
@@ -1002,23 +1021,23 @@ func (e *Exec) visitInstr(fr *frame, ins ssa.Instruction) cont {
 		}
 		e.mapUpdate(m, copyVal(e.get(fr, ins.Key)), copyVal(e.get(fr, ins.Value)))
 	case *ssa.TypeAssert:
-		fr.env[ins] = e.typeAssert(fr, ins)
+		fr.env[fr.idx[ins]] = e.typeAssert(fr, ins)
 	case *ssa.MakeClosure:
 		var env []Value
 		for _, b := range ins.Bindings {
 			env = append(env, e.get(fr, b))
 		}
 		e.objID++
-		fr.env[ins] = &Closure{fn: ins.Fn.(*ssa.Function), env: env, id: e.objID}
+		fr.env[fr.idx[ins]] = &Closure{fn: ins.Fn.(*ssa.Function), env: env, id: e.objID}
 	case *ssa.Phi:
 		for i, pred := range ins.Block().Preds {
 			if fr.prev == pred {
-				fr.env[ins] = e.get(fr, ins.Edges[i])
+				fr.env[fr.idx[ins]] = e.get(fr, ins.Edges[i])
 				break
 			}
 		}
 	case *ssa.Select:
-		fr.env[ins] = e.selectOp(fr, ins)
+		fr.env[fr.idx[ins]] = e.selectOp(fr, ins)
 	default:
 		e.unsupported(fmt.Sprintf("instruction %T", ins))
 	}
